@@ -30,6 +30,12 @@ func init() {
 		"verifAssert":        apiAssert,
 		"verifCover":         apiCover,
 		"verifTry":           apiTry,
+		"verifOrderFreeN": func(fr *frame, a []value) value {
+			fr.i.orderFree = true
+			fr.i.orderBudget = int(asInt64(a[0]))
+			fr.i.orderBudget0 = fr.i.orderBudget
+			return nil
+		},
 		"verifThorough": func(fr *frame, a []value) value {
 			// recorded in the replay vector so that the native run takes the same bounds
 			k := 0
@@ -46,7 +52,7 @@ func init() {
 			if !fr.i.orderFree {
 				return 0
 			}
-			return fr.i.sh.cfg.MaxOrderDeviations - fr.i.orderBudget
+			return fr.i.orderBudget0 - fr.i.orderBudget
 		},
 		"verifMemo":          apiMemo,
 		"verifAnd":           func(fr *frame, a []value) value { return fr.i.vAnd(a[0], a[1]) },
@@ -61,6 +67,7 @@ func init() {
 		"verifOrderFree":     func(fr *frame, a []value) value {
 			fr.i.orderFree = true
 			fr.i.orderBudget = fr.i.sh.cfg.MaxOrderDeviations
+			fr.i.orderBudget0 = fr.i.orderBudget
 			return nil
 		},
 		"verifCapNondet":     func(fr *frame, a []value) value { fr.i.capNondet = true; return nil },
